@@ -75,6 +75,15 @@ ComposeAff(g, f) == LET o == ComposeOut(Out(g.m, g.b, g.q), Out(f.m, f.b, f.q)) 
 ApplyFunc(t, a) ==
     [t EXCEPT !.nodes = [i \in Occ(t) |-> IF t.nodes[i].leaf THEN SetAff(t.nodes[i], ComposeAff(a, AffOf(t.nodes[i]))) ELSE t.nodes[i]]]
 
+\* replace_node(i, a): the subtree below i is dropped and i becomes a terminal holding a. For the root the function is overwritten
+\* in place (children are kept: "caller is responsible to uphold invariants"); otherwise the child slot is removed and re-added,
+\* so the new terminal takes the index freed last (LIFO reuse)
+ReplaceNode(t, i, a) ==
+    IF i = t.root THEN SetNode(t, i, SetAff(t.nodes[i], a))
+    ELSE LET p == t.nodes[i].p
+             lab == (CHOOSE sl \in 1..t.k : t.nodes[p].ch[sl] = i) - 1
+         IN AddChild(RemoveChild(t, p, lab), p, lab, a)
+
 \* ------------------------------------------------------------------ composition schemas
 \* update of a node of the grafted tree g in the context of the terminal function ta of self
 UpdDecisionCompose(a, ta) ==      \* predicate A y <= b pulled back through y = ta(x)
